@@ -61,6 +61,11 @@ func vhSpecOrder(n int, dep *[vhMaxVars][vhMaxVars]bool) (order []int, cycle boo
 	return order, false
 }
 
+var (
+	vhDepFix     = -1 // >= 0: value of the first vhDepFixBits relation bits (work splitting by the driver)
+	vhDepFixBits = 0
+)
+
 func vh_C15_order() {
 	vhResetClock()
 	vhStopAt = -1
@@ -70,11 +75,17 @@ func vh_C15_order() {
 	for k := 0; k < n; k++ {
 		vhVars = append(vhVars, &node{interp: i, kind: defineStmt, findex: k})
 	}
+	bit := 0
 	for a := 0; a < n; a++ {
 		for b := 0; b < n; b++ {
 			vhDep[a][b] = false
 			if a != b {
 				vhDep[a][b] = vNondetBool("dep")
+				if vhDepFix >= 0 && bit < vhDepFixBits {
+					// the driver splits the relation space: this obligation covers one value of the first bits
+					vAssume(vhDep[a][b] == ((vhDepFix>>bit)&1 == 1))
+				}
+				bit++
 			}
 		}
 	}
@@ -371,4 +382,4 @@ var vhScenarios = map[string]func(map[string]string) bool{
 
 var vhRegistry = map[string]func(){"vh_C15_order": vh_C15_order, "vh_C15_deps": vh_C15_deps}
 
-var vhIntVars = map[string]*int{"vhNVars": &vhNVars, "vhDepthMax": &vhDepthMax}
+var vhIntVars = map[string]*int{"vhNVars": &vhNVars, "vhDepthMax": &vhDepthMax, "vhDepFix": &vhDepFix, "vhDepFixBits": &vhDepFixBits}
